@@ -522,5 +522,5 @@ def choose_cfgs(g, k, tier):
     else:
         idx = [0, 1 + k % 2, [3, 4, 5, 6, 7, 8, 9][k % 7]]
         if "c05" in g.tags or "catch" in g.tags:
-            idx = [0, 1, 2, [3, 4, 5, 6, 8][k % 5]]
+            idx = [0, 1 + k % 2, [2 - k % 2, 3, 4, 5, 6, 8][(k // 2) % 6]]
     return [C05_CFGS[i] for i in sorted(set(idx))]
